@@ -46,3 +46,19 @@ Theorem C06_load_refuses_bad_storage_checkpoint : forall (sha : bytes -> bytes) 
   exists x', get_inst (w_insts w') i = Some x' /\ i_pc x' = PNone.
 Proof. exact load_refuses_bad_storage_checkpoint. Qed.
 Print Assumptions C06_load_refuses_bad_storage_checkpoint.
+
+(* The clause "history stays append-only" is FALSE of the code for the history published in
+   object storage (it holds for the lock store, above): known finding, DESIGN.md 0.3 / 9.3.
+   Witness: Ctlog/Example.v history_rollback (two live instances); after it, the published
+   checkpoint has size 1 although size 2 was published before and index 1 was acknowledged. *)
+Theorem C06_published_rollback_refuted : exists (sha : bytes -> bytes) (evs : list ev),
+  let w := run sha evs init in
+  map (fun c => cp_size (fst c)) (w_pubhist w) = [0; 2; 1]%N /\
+  exists a idx ts P, In a (w_acks w) /\ a_res a = Some (idx, ts) /\
+                     published w = Some P /\ (cp_size P <= idx)%N.
+Proof.
+  exists toy_sha, history_rollback. vm_compute. split; [reflexivity|].
+  eexists. exists 1%N. eexists. eexists. split; [left; reflexivity|]. split; [reflexivity|].
+  split; [reflexivity|]. discriminate.
+Qed.
+Print Assumptions C06_published_rollback_refuted.
